@@ -47,6 +47,8 @@ def _ordering_calls(body, blocks=None):
 
 def run(ctx, rep):
     lib = ctx.lib
+    from rules import number_rules as _NR
+    _NR.num_order(rep, ctx)
     tab = common.table("json_order.toml")
     # ------------------------------------------------------------ RANK
     r = rep.rule("C07-RANK", "JsonValue::inner_index ranks the six JSON types in the documented order",
